@@ -104,6 +104,7 @@ TABLE: List[Entry] = [
     ("R-INIT-COHERENCE", None, "posting-order-list", {"C01", "C13"}),  # the order changes the schedule (statistics), not the solution set
     ("R-INIT-COHERENCE", None, "sort-", {"C13", "C15"}),
     ("R-INIT-COHERENCE", None, "missing", {"C13", "C15"}),
+    ("R-INIT-COHERENCE", None, "triggers-extent", {"C13", "C15", "C16"}),  # an undersized table is read out of bounds by the engine
     ("R-INIT-COHERENCE", None, "triggers-shape", {"C13", "C15"}),  # a table accumulated with |= over uninitialised memory depends on the history of the process
     ("R-INIT-COHERENCE", None, None, {"C13"}),
     # the shaving loop scans with first_not_instantiated and stops on its 'none left' answer
